@@ -20,6 +20,9 @@ def clone(node):
         for field in node._fields:
             if hasattr(node, field):
                 setattr(new, field, clone(getattr(node, field)))
+        for attr in node._attributes:
+            if hasattr(node, attr):
+                setattr(new, attr, getattr(node, attr))
         return new
     if isinstance(node, list):
         return [clone(n) for n in node]
